@@ -1,6 +1,6 @@
 (** C01 - All implementations agree on the roots, for every history.
     Only property theorems here; see Proofs/SpecBasics.v (and, as they land, Proofs/StumpAdd.v). *)
-From Utreexo Require Import Spec.Forest Proofs.SpecBasics.
+From Utreexo Require Import Spec.Forest Spec.Term Model.Verify Proofs.SpecBasics Proofs.StumpAdd.
 Open Scope N_scope.
 
 (** "The result does not depend on how deletions and additions were batched into blocks." *)
@@ -14,3 +14,49 @@ Theorem C01_leaf_count : forall (H : Type) (HO : ops H) s dels adds,
   num_leaves (apply_block HO s dels adds) = num_leaves s + N.of_nat (length adds).
 Proof. exact num_leaves_apply_block. Qed.
 Print Assumptions C01_leaf_count.
+
+(** ** The roots-only verifier's addition refines the reference (mirror of Stump.add, Proofs/StumpAdd.v) *)
+(** "Adding leaves to a stump whose roots are the reference roots of [s] yields the reference
+    roots (and the leaf count) of [s ++ map Some adds]", for every hash function that never returns
+    the all-zero hash, when no live or added leaf is the all-zero hash. *)
+Theorem C01_stump_add_refines :
+  forall (H : Type) (HO : ops H), ops_ok HO ->
+    (forall a b, op_eqb HO (op_hash2 HO a b) (op_empty HO) = false) ->
+    forall strict filler (s : slots H) (adds : list H),
+      (forall h, In (Some h) s -> op_eqb HO h (op_empty HO) = false) ->
+      (forall h, In h adds -> op_eqb HO h (op_empty HO) = false) ->
+      N.of_nat (length s + length adds) <= 2 ^ 63 ->
+      let '(st', _, _) :=
+        stump_add HO strict filler (mkStump (roots HO s) (num_leaves s)) adds in
+      st_roots st' = roots HO (s ++ map Some adds) /\
+      st_n st' = num_leaves (s ++ map Some adds).
+Proof. exact stump_add_refines. Qed.
+Print Assumptions C01_stump_add_refines.
+
+(** the same up to the [uint64] limit of the leaf count *)
+Theorem C01_stump_add_refines_64 :
+  forall (H : Type) (HO : ops H), ops_ok HO ->
+    (forall a b, op_eqb HO (op_hash2 HO a b) (op_empty HO) = false) ->
+    forall strict filler (s : slots H) (adds : list H),
+      (forall h, In (Some h) s -> op_eqb HO h (op_empty HO) = false) ->
+      (forall h, In h adds -> op_eqb HO h (op_empty HO) = false) ->
+      N.of_nat (length s + length adds) < 2 ^ 64 ->
+      let '(st', _, _) :=
+        stump_add HO strict filler (mkStump (roots HO s) (num_leaves s)) adds in
+      st_roots st' = roots HO (s ++ map Some adds) /\
+      st_n st' = num_leaves (s ++ map Some adds).
+Proof. exact stump_add_refines_64. Qed.
+Print Assumptions C01_stump_add_refines_64.
+
+(** in the free hash algebra ("barring a hash collision") the idealisation is a theorem *)
+Theorem C01_stump_add_refines_term :
+  forall strict filler (s : slots term) (adds : list term),
+    (forall h, In (Some h) s -> h <> Zero) ->
+    (forall h, In h adds -> h <> Zero) ->
+    N.of_nat (length s + length adds) < 2 ^ 64 ->
+    let '(st', _, _) :=
+      stump_add term_ops strict filler (mkStump (roots term_ops s) (num_leaves s)) adds in
+    st_roots st' = roots term_ops (s ++ map Some adds) /\
+    st_n st' = num_leaves (s ++ map Some adds).
+Proof. exact stump_add_refines_term. Qed.
+Print Assumptions C01_stump_add_refines_term.
